@@ -1,11 +1,13 @@
 ------------------------------- MODULE MC_C14 -------------------------------
 EXTENDS JasmSession, JasmPattern, TLC
 \* the rule documents of the C14 universe differ in exactly the state-bearing features
-RuleIds == {"plain", "mfm", "ofm", "range", "sections", "style", "caps", "macros", "xmacros", "xlib_a", "xlib_b"}
+RuleIds == {"plain", "mfm", "ofm", "range", "range2", "sections", "sections2", "style", "caps", "macros", "xmacros", "xlib_a", "xlib_b"}
 CfgTable == [r \in RuleIds |->
     CASE r = "mfm"      -> RuleCfg("T", "-", "-", <<>>, <<>>)
       [] r = "ofm"      -> RuleCfg("F", "T", "-", <<>>, <<>>)
       [] r = "range"    -> RuleCfg("-", "-", "-", <<"0x401000", "0x401010">>, <<>>)
+      [] r = "range2"   -> RuleCfg("-", "-", "-", <<"0x402000", "0x402fff">>, <<>>)    \* the other call target of the listing
+      [] r = "sections2" -> RuleCfg("-", "-", "-", <<>>, <<".text">>)
       [] r = "sections" -> RuleCfg("-", "-", "-", <<>>, <<".foo">>)
       [] r = "style"    -> RuleCfg("-", "-", "att", <<>>, <<>>)
       [] OTHER          -> NoCfg]
@@ -16,7 +18,8 @@ PatternOf(r) ==
     CASE r = "plain"    -> PAnd(<<I("call")>>)
       [] r = "mfm"      -> PAnd(<<I("cal")>>)                       \* found only without mnemonics-full-match
       [] r = "ofm"      -> PAnd(<<PIns("call", <<OLit("4010")>>)>>)  \* found only without operands-full-match
-      [] r = "range"    -> PAnd(<<PIns("call", <<OLit("valid_addr")>>)>>)
+      [] r \in {"range", "range2"} -> PAnd(<<PIns("call", <<OLit("valid_addr")>>)>>)
+      [] r = "sections2" -> PAnd(<<I("nop")>>)
       [] r = "sections" -> PAnd(<<I("nop")>>)
       [] r = "style"    -> PAnd(<<I("ret")>>)
       [] r = "caps"     -> PAnd(<<PIns("push", <<OCap("x")>>), PIns("pop", <<OCap("x")>>)>>)
@@ -31,8 +34,8 @@ Listing == << Ins("401000", "push", <<"%rbx">>), Ins("401001", "call", <<"401008
               Ins("401007", "ret", <<>>), Ins("401008", "call", <<"402000">>), Ins("40100d", "ret", <<>>) >>
 \* which inputs an operation on rule r is run on ("text": the listing above; "bin": an object file
 \* with an executable .text and an executable .foo section, built by the harness)
-InputsOf(r) == IF r \in {"sections", "plain", "style"} THEN {"text", "bin"} ELSE {"text"}
-RuleSeq == <<"plain", "mfm", "ofm", "range", "sections", "style", "caps", "macros", "xmacros", "xlib_a", "xlib_b">>
+InputsOf(r) == IF r \in {"sections", "sections2", "plain", "style"} THEN {"text", "bin"} ELSE {"text"}
+RuleSeq == <<"plain", "mfm", "ofm", "range", "range2", "sections", "sections2", "style", "caps", "macros", "xmacros", "xlib_a", "xlib_b">>
 Export == [rules |-> [n \in DOMAIN RuleSeq |->
                         [id |-> RuleSeq[n], cfg |-> CfgTable[RuleSeq[n]], pattern |-> PatternOf(RuleSeq[n]),
                          macros |-> MacrosOf(RuleSeq[n]), xmacros |-> XMacrosOf(RuleSeq[n]),
